@@ -1,14 +1,18 @@
 """C12 - one resource tracker serves the whole process tree and is self-healing."""
-from .base import Prop, V, gen_knobs, gen_model, submit_op, hang_violations
+from .base import Prop, V, gen_knobs, gen_model, submit_op, hang_violations, fut_state
 from . import execfam as X
 from .c19 import chain
+
+
+OSERRORS = ("OSError", "BrokenPipeError", "ConnectionError", "ConnectionResetError", "ConnectionAbortedError",
+            "FileNotFoundError", "ChildProcessError", "ProcessLookupError", "PermissionError")
 
 
 def gen(rng, tier):
     threads = [[]]
     main = threads[0]
     ctx = rng.choice(["loky", "loky", "loky_init_main"])
-    variant = rng.choice(["tree", "tree", "signals", "restart"])
+    variant = rng.choice(["tree", "tree", "signals", "restart", "crash"])
     kw = {"max_workers": rng.randint(1, 2), "timeout": rng.choice([10.0, 0.5]), "context": ctx}
     main.append({"op": "tracked_op"})
     main.append({"op": "create", "ex": "A", "kw": kw})
@@ -23,7 +27,22 @@ def gen(rng, tier):
             faults.append(dict(kind="kill", target=["t", 0], sig=rng.choice([2, 15]),
                                at=rng.choice([["step", rng.randint(1, 60)], ["step", rng.randint(60, 600)],
                                               ["op", rng.randint(1, 12)]])))
+    if variant == "crash":
+        # the tracker is SIGKILLed at an arbitrary point of its own life while the tree is working (and creating
+        # semaphores at every level): every tracked operation that starts afterwards must still succeed
+        for _ in range(rng.randint(1, 2)):
+            faults.append(dict(kind="kill", target=["t", rng.choice([0, 0, 1])], sig=9,
+                               at=rng.choice([["op", rng.randint(1, 60)], ["step", rng.randint(50, 2500)]])))
+        for _ in range(rng.randint(0, 2)):
+            main.append({"op": "sleep", "d": rng.choice([0.0, 0.01, 0.2])})
+            main.append(submit_op("A", fid, chain(rng, 10000 * (fid + 1), rng.randint(0, 2), 10), []))
+            fid += 1
     main.append({"op": "wait_all"})
+    if variant == "crash":
+        main.append({"op": "tracked_op"})
+        main.append(submit_op("A", fid, chain(rng, 10000 * (fid + 1), rng.randint(0, 2), 10), []))
+        fid += 1
+        main.append({"op": "wait_all"})
     if variant == "restart":
         for i in range(rng.randint(1, 3)):
             main.append({"op": "kill_tracker"})
@@ -73,6 +92,9 @@ class C12(Prop):
             return out
         trackers = [p for p in k.procs.values() if p.role == "tracker"]
         kills = [e for e in res.obs.events if e["op"] == "kill_tracker" and e["phase"] == "ret"]
+        tkills = [f for f in X.injected_kills(res) if k.procs[f[1]].role == "tracker" and f[2] == 9]
+        kills = kills + tkills
+        out += self.check_crash(res, tkills)
         # signals never terminate a tracker
         for t in trackers:
             if t.status is not None and t.status[0] == "sig" and t.status[1] in (2, 15):
@@ -98,8 +120,14 @@ class C12(Prop):
             if holders and t.status == ("exit", 0) and not kills:
                 out.append(V(pid, "C12/tracker-swept-before-last-member-died", "tracker %d finished while %r were still alive" % (t.pid, [x[1] for x in holders])))
         # restarts
+        began = {}
         for e in res.obs.events:
+            if e["op"] == "tracked_op" and e["phase"] == "call":
+                began[(e["thread"], e["i"])] = e["step"]
             if e["op"] == "tracked_op" and e["phase"] == "exc":
+                b = began.get((e["thread"], e["i"]), 0)
+                if any(b <= f[6] <= e["step"] for f in tkills):
+                    continue      # the tracker was killed while this very operation was in flight
                 out.append(V(pid, "C12/tracked-operation-failed/%s" % e["r"]["e"]["type"], str(e["r"])[:300]))
         prev_kill = None
         evs = [e for e in res.obs.events if e["phase"] == "ret" and e["op"] in ("kill_tracker", "tracked_op")]
@@ -115,6 +143,52 @@ class C12(Prop):
                 w = [x for x in res.run.warnings if "died unexpectedly" in x[2]]
                 if not w:
                     out.append(V(pid, "C12/restart-without-warning", "no 'died unexpectedly, relaunching' warning"))
+        return out
+
+    def check_crash(self, res, tkills):
+        """tracker SIGKILLed by the fault engine: tracked operations (semaphore creation at any level of the tree)
+        that *started* after the death must not fail; one in flight at the moment of the kill may."""
+        if not tkills:
+            return []
+        out = []
+        ksteps = [f[6] for f in tkills]
+        # a worker or the root killed in the same run explains pool-level failures; OSErrors it does not
+        other = [f for f in X.injected_kills(res) if res.kernel.procs[f[1]].role != "tracker"]
+
+        def failures(v):
+            if isinstance(v, dict):
+                for x in v.get("sub", []):
+                    yield from failures(x)
+            elif isinstance(v, list) and len(v) == 2 and v[0] == "exc":
+                yield v[1]
+
+        for fid, rec in res.obs.futures.items():
+            if not rec.get("submitted"):
+                continue
+            st, payload = fut_state(rec)
+            bad = []
+            if st == "exc" and ("OSError" in payload["mro"] or not other):
+                bad.append(payload["type"])
+            elif st == "value":
+                bad.extend(t for t in failures(payload) if t in OSERRORS or not other)
+            if not bad:
+                continue
+            spans = [(e["s0"], e["s1"]) for e in res.obs.exec_log if e["task"] == rec["task"]["id"]]
+            inflight = any(s0 <= ks and (s1 is None or ks <= s1) for (s0, s1) in spans for ks in ksteps)
+            if not inflight:
+                out.append(V(self.id, "C12/task-failed-after-tracker-death/%s" % bad[0],
+                             "task %r failed with %r although the tracker died at steps %r, outside its execution %r" % (
+                                 rec["task"]["id"], bad, ksteps, spans)))
+        # the root's own tracked operation after the death re-launches a tracker
+        died = {f[1] for f in tkills}
+        began = {}
+        for e in res.obs.events:
+            if e["op"] == "tracked_op" and e["phase"] == "call":
+                began[(e["thread"], e["i"])] = e["step"]
+            if e["op"] == "tracked_op" and e["phase"] == "ret" and e["r"]["before"] in died and began.get(
+                    (e["thread"], e["i"]), 0) > max(f[6] for f in tkills if f[1] == e["r"]["before"]):
+                if e["r"]["after"] == e["r"]["before"] or e["r"]["after"] is None:
+                    out.append(V(self.id, "C12/tracker-not-restarted", "tracker pid before %r after %r" % (e["r"]["before"], e["r"]["after"])))
         return out
 
     def features(self, res):
